@@ -78,10 +78,19 @@ Print Assumptions C05_result_wf_definers_refuted.
 
 (** "Each equation depends on the equations computing the non-constant variables it reads" is FALSE as well: the
     dependency is lost when the variable read is later re-targeted to another component. *)
-Theorem C05_result_wf_dependencies_refuted :
+Theorem C05_result_wf_dependencies_refuted : dependency_fix = false ->
   exists s r, analyse s = Done r /\ valid_type (r_type r) = true /\ wf_deps_complete s r = false.
-Proof. exists deps_sys. exact AnalysisWitness.deps_witness. Qed.
+Proof. intro H. exists deps_sys. exact (AnalysisWitness.deps_witness H). Qed.
 Print Assumptions C05_result_wf_dependencies_refuted.
+
+(** With the repair fixes/C05-dependency-retarget.diff (dependency_fix = true: dependencies compared and looked up
+    through the equivalence class) the witness is well formed in every clause.
+    NOT PROVED: forall s r, dependency_fix = true -> analyse s = Done r -> valid_type (r_type r) = true ->
+    wf_deps_complete s r = true (checked against the patched library on every generated system: 0 failures). *)
+Theorem C05_result_wf_dependencies_fixed_witness : dependency_fix = true ->
+  exists r, analyse deps_sys = Done r /\ wf deps_sys r = true.
+Proof. exact AnalysisWitness.deps_witness_fixed. Qed.
+Print Assumptions C05_result_wf_dependencies_fixed_witness.
 
 (* NOT PROVED: forall s r, analyse s = Done r -> valid_type (r_type r) = true -> wf_topological false r = true
    ("direct equations admit a topological order").  Evaluated on the real AnalyserModel and on the model's own
